@@ -19,7 +19,7 @@ RECURSIVE HashC(_, _)
 HashC(c, k) == IF k = 0 THEN 7 ELSE (HashC(c, k - 1) * 31 + c[k][2] * 11 + (CASE c[k][1] = "M" -> 1 [] c[k][1] = "I" -> 2 [] c[k][1] = "D" -> 3
                  [] c[k][1] = "N" -> 4 [] c[k][1] = "S" -> 5 [] c[k][1] = "H" -> 6 [] c[k][1] = "P" -> 7 [] c[k][1] = "=" -> 8 [] OTHER -> 9)) % 100003
 Run(cmd, pad, s, e, w, t, skip, omit) == [cmd |-> cmd, pad |-> pad, s |-> s, e |-> e, wrap |-> w, t |-> t, skipins |-> skip, omitref |-> omit]
-Runs(h) ==
+RunsN(h, n) ==
   LET s0 == (h % L) + 1  e0 == ((h \div 7) % L) + 1
       s == IF s0 <= e0 THEN s0 ELSE e0   e == IF s0 <= e0 THEN e0 ELSE s0
       w == ((h \div 3) % 4) + 1
@@ -30,7 +30,9 @@ Runs(h) ==
         Run("topa", FALSE, -1, -1, -1, 1, FALSE, FALSE), Run("topa", FALSE, s, e, -1, 2, FALSE, FALSE),
         Run("topa", FALSE, -1, -1, -1, 1, TRUE, FALSE), Run("topa", FALSE, s, e, w, 1, FALSE, TRUE),
         Run("topa", FALSE, s, e, -1, 1, TRUE, FALSE),
+        Run("topa", FALSE, 1, n, -1, 1, FALSE, FALSE), Run("topa", FALSE, 1, -1, -1, 2, FALSE, FALSE), Run("topa", FALSE, -1, n, -1, 1, FALSE, FALSE),
         Run("samvar", FALSE, -1, -1, -1, 2, FALSE, FALSE), Run("topavar", FALSE, -1, -1, -1, 1, FALSE, FALSE) >>
+Runs(h) == RunsN(h, L)
 Rec(qn, flag, p, c, rot) == [q |-> qn, flag |-> flag, pos |-> p, cig |-> c, seq |-> Rot(rot, QryLen(c))]
 CigStr(c) == LET RECURSIVE S(_) S(k) == IF k = 0 THEN "" ELSE S(k - 1) \o ToString(c[k][2]) \o c[k][1] IN S(Len(c))
 
@@ -48,11 +50,11 @@ Pair == {[id |-> "two-" \o ToString(a) \o "-" \o ToString(b) \o "-" \o ToString(
           ref |-> SubSeq(RefPat, 1, 8),
           recs |-> <<MRec(0, 0, a, 0), MRec(0, 256, ((a + b) % Len(Menu)) + 1, 5), MRec(0, 2048, b, IF z = 1 THEN 0 ELSE 3),
                      MRec(1, 4, a, 1), MRec(1, 16, z, 7)>>,
-          runs |-> Runs(a * 37 + b * 101 + z)] : a \in 1..Len(Menu), b \in 1..Len(Menu), z \in {1, 3}}
+          runs |-> RunsN(a * 37 + b * 101 + z, 8)] : a \in 1..Len(Menu), b \in 1..Len(Menu), z \in {1, 3}}
 Triple == {[id |-> "three-" \o ToString(a) \o "-" \o ToString(b) \o "-" \o ToString(c),
           ref |-> SubSeq(RefPat, 1, 8),
           recs |-> <<MRec(0, 0, a, 0), MRec(0, 2048, b, 0), MRec(0, 2064, c, 0)>>,
-          runs |-> Runs(a * 37 + b * 101 + c * 13)] : a \in {1, 8, 10}, b \in {3, 7, 9, 11}, c \in {5, 6, 2}}
+          runs |-> RunsN(a * 37 + b * 101 + c * 13, 8)] : a \in {1, 8, 10}, b \in {3, 7, 9, 11}, c \in {5, 6, 2}}
 (* every window of an 8-base reference x every wrap width up to (and beyond) the width of the windowed row, for both commands *)
 WWRuns(s, e) ==
   LET n == e - s + 4 IN
